@@ -493,7 +493,11 @@ func (runtime *Runtime) deliverDeduplicatedEvents(ch chan dedup, empty chan<- de
 		runtime.controllersMu.RLock()
 
 		for _, ctrl := range controllers {
-			runtime.controllers[ctrl].WatchTrigger(&k)
+			// the dependency database was read before the lock was taken: a controller whose registration
+			// was in progress at that moment and was rejected (and rolled back) since has no adapter
+			if ctrlAdapter, ok := runtime.controllers[ctrl]; ok {
+				ctrlAdapter.WatchTrigger(&k)
+			}
 		}
 
 		runtime.controllersMu.RUnlock()
